@@ -27,7 +27,7 @@ import random
 from rt.common import Workload, main, schema
 from rt.c01_schema import SchemaModel
 from rt.c01 import (Env, Vocab, pick_defs, forests, special_groups, EXT_WORD, UNKNOWN_WORD, DEF_PLAIN,
-                    DEF_VALUE, tokenize, d2_model_count)
+                    DEF_VALUE, tokenize, d2_model_count, blank_variant, N_BLANK_PATTERNS)
 
 CL_FORM = "C04.spelling.path_form"
 CL_CASE = "C04.spelling.letter_case"
@@ -543,7 +543,10 @@ def part_delims(w, run, model, trees):
             elif t == ")":
                 muts += [text[:pos] + text[pos + 1:], text[:pos] + "," + text[pos:]]
         for m in muts:
-            for v in blank_text_variants(m, rng, 4 if w.quick else 6):
+            variants = [blank_variant(m, k) for k in range(N_BLANK_PATTERNS)]
+            if not w.quick:
+                variants += blank_text_variants(m, rng, 6)[4:]
+            for v in dict.fromkeys(variants):
                 run.same(m, v, CL_SPACE, "blanks (broken delimiters)")
     return run.n - before
 
@@ -562,24 +565,61 @@ def part_witness(w, run, model, defs):
              ("Label/abc,Label/ABC", "Label/abc,Informational-property/Label/ABC", CL_VCASE),
              ("Label/abc,Label/abc", "Label/abc,Informational-property/Label/abc", CL_FORM),
              ("Red,Red", "Red , Red", CL_SPACE), ("Red,Red", "red,RED", CL_CASE),
-             ("Red,(),()", " Red , ( ) , ( ) ", CL_SPACE), ("(Red,()),Blue,()", "(),Blue,((),Red)", CL_ORDER)]
+             ("Red,(),()", " Red , ( ) , ( ) ", CL_SPACE), ("Red,,Blue", "Red, ,Blue", CL_SPACE),
+             ("(Red,,Blue),Square", "(Red, ,Blue), Square", CL_SPACE), (",Red", " ,Red", CL_SPACE),
+             ("(Red,(,Blue,Square))", "(Red, ( ,Blue, Square))", CL_SPACE), ("Red(Blue)", "Red (Blue)", CL_SPACE),
+             ("Label/ABC,Label/abc,Label/Abd", "Label/ABC,Label/Abd,Label/abc", CL_ORDER),
+             ("(Label/Run,Label/run,Label/Stop,Red)", "(Label/Run, Label/Stop, Red, Label/run)", CL_ORDER), ("(Red,()),Blue,()", "(),Blue,((),Red)", CL_ORDER)]
     for base, rew, cl in pairs:
         run.same(base, rew, cl, "fixed witness")
     return run.n - before
 
 
+def absolute(w, run, text, clause, repeated):
+    """independent oracle of the property text: a repeat is reported iff two siblings are equal (nothing else is)"""
+    errs = run.observe(text, False)
+    run.n += 1
+    run.counts[clause] = run.counts.get(clause, 0) + 1
+    w.case(key=(run.env.version, text, "abs"), nontrivial=True, sample={"text": text, "repeated": repeated, "clause": clause})
+    if errs is not None:
+        ok = (REPEATED in errs and set(errs) == {REPEATED}) if repeated else errs == []
+        w.check(ok, clause, run.inp(text, None, False, "none (absolute)"), observed=errs,
+                expected=[REPEATED, "..."] if repeated else [])
+
+
+# (copy 1, a different value, copy 2): in code-point order the middle value lies between the copies, ignoring case it does not
+VALUE_CASE_TRIPLES = (("ABC", "Abd", "abc"), ("Run", "Stop", "run"))
+
+
 def part_vcase(w, run, model, vocab):
     rng = w.rng
     before = run.n
-    cands = [n for n in vocab.plain_nodes if len(n.path) > 1 and
+    cands = [n for n in vocab.plain_nodes if len(n.path) > 1 and not n.unit_classes and
              ((n.takes_value and (not n.value_classes or n.value_classes[0] in ("nameClass", "textClass")))
               or (not n.takes_value and n.ext_allowed))]
+    sq, ci = Leaf(model.node("Square")), Leaf(model.node("Circle"))
     for n in rng.sample(cands, min(len(cands), 10 if w.quick else 60)):
         a, b = Leaf(n, "/abc"), Leaf(n, "/ABC")
-        for tree in ([a, b], [[a, Leaf(model.node("Square")), b]], [a, Leaf(model.node("Square")), b]):
+        for tree in ([a, b], [[a, sq, b]], [a, sq, b]):
             base = render(tree)
             for pat in (lambda i: (-1 if i == 0 else 0, 0), lambda i: (-1 if i else 0, 0), lambda i: (-1, 0), lambda i: (1, 0)):
                 run.same(base, render(tree, styles=pat), CL_VCASE, "path form of one copy; values differ in case only")
+        # ... with a sibling that sorts between the two copies in code-point order: every order, several layouts
+        pre = "/" if n.takes_value else "/Qx"
+        for v1, mid, v2 in VALUE_CASE_TRIPLES:
+            a, m, b = Leaf(n, pre + v1), Leaf(n, pre + mid), Leaf(n, pre + v2)
+            layouts = ([a, m, b], [[a, m, b]], [[a, m, sq, b]], [sq, [[a, m, [ci], b]]], [[sq, a], [m, sq], [sq, b]],
+                       [a, b], [[a, sq, b], m])
+            for tree in layouts:
+                ords = orderings(tree, 8 if w.quick else None, rng)
+                base = render(ords[0])
+                for o in ords:
+                    txt = render(o)
+                    absolute(w, run, txt, CL_REPEAT, True)
+                    run.same(base, txt, CL_ORDER, "order (copies differ in value case)")
+                    run.same(txt, render(o, styles=lambda i: (-1 if i % 2 else 1, i % 3)), CL_VCASE,
+                             "path form and name case (copies differ in value case)")
+                    run.same(txt, render(o, blanks=lambda d: (" ", " ")), CL_SPACE, "blanks (copies differ in value case)")
     return run.n - before
 
 
@@ -668,7 +708,8 @@ def run(w: Workload):
                      "orderings of each; 3-5 path-form, 3-5 letter-case and 4-6 blank patterns on two orderings" %
                      (a["trees"], "" if w.quick else " or 4 leaves and depth <= 3", "<= 12 sampled" if w.quick else "all"),
             "delims": "every delimiter fault (doubled/leading/trailing/missing comma, '()', extra/missing/swapped parenthesis) at "
-                      "every delimiter of a stride sample of the <= 3-leaf trees; 4-6 blank patterns each",
+                      "every delimiter of a stride sample of the <= 3-leaf trees; 6-8 blank patterns each (after / before / "
+                      "around every delimiter, and blanks ONLY between adjacent delimiters and at the ends)",
             "rich": "%d random annotations (<= 5 atoms + special group, depth <= 4 (+2 inside special groups), a quarter each: "
                     "plain / with special group / with one fault / both); 5 path-form, 5 case, 6 blank, 6 order, 3 combined "
                     "rewrites each; every 5th base with allow_placeholders=True" % ((260 if w.quick else 1200) * (2 if w.quick else 6)),
@@ -676,7 +717,9 @@ def run(w: Workload):
             "dups": "every group G over {Red, Blue, Green} with <= 3 leaves and depth <= 2, every pair of written member orders of G as "
                     "two sibling copies, 7 sets of further siblings, %s sibling positions, at nesting depth 0, 1 and 3 "
                     "(annotation depth <= 5)" % ("4 sampled" if w.quick else "all"),
-            "vcase": "10-60 valued or extended tags, two copies with values 'abc' / 'ABC', 3 layouts, 4 respellings",
+            "vcase": "10-60 valued or extended tags: two copies with values 'abc' / 'ABC', 3 layouts, 4 respellings; and the triples "
+                     "ABC/Abd/abc, Run/Stop/run (middle value sorts between the copies in code-point order) in 7 layouts, %s "
+                     "orderings each: absolute repeat check, order, respelling and blank rewrites" % ("<= 8" if w.quick else "all"),
         }[part]
         w.part("%s[%s]" % (part, version), cases=a["cases"], bound=bound, exhaustive=(part == "small" and not w.quick),
                per_clause=a["counts"])
